@@ -10,7 +10,10 @@ RULE = ("for each of 10 constructions (6 AEADs incl. verify-only m=NULL, secretb
         "extended. Oracle: non-zero return, reported length 0, canaries, and the output buffers of the same forged call under two "
         "different (key, plaintext) tuples byte-identical. Flips that leave the result unchanged by specification (X25519 pk bit 255, "
         "clamped scalar bits, clamped Poly1305 r bits - decided by the reference) are counted, not judged. Each forgery is one "
-        "distinct case; all are non-trivial.")
+        "distinct case; all are non-trivial. Length-word truncation family: associated data of 2^32+48 bytes (untouched zero pages), mlen 33, one AD "
+        "bit flipped at byte 5, 2^16+5, 2^31+5, 2^32-7, 2^32+20 and the last byte, plus the untouched tuple (must open): AES-256-GCM and "
+        "ChaCha20-Poly1305-IETF in quick (the latter one call form per position), all six AEADs x combined / detached / verify-only in thorough "
+        "(AEGIS only with hardware AES; skipped items are counted); oracle: non-zero return, length 0, canaries, no 8-byte plaintext chunk in the output.")
 
 META = {
     "engine": "E-shape", "level": "exploration",
@@ -36,4 +39,5 @@ def main(tier):
     common.simple_check("C02", tier, "exploration", ["c02.c", os.path.join(ref, "ref_hash.c"), os.path.join(ref, "ref_stream.c")],
                         VARIANTS, RULE, ["single-bit flips, not all multi-bit combinations", "sealed boxes use the real RNG for the ephemeral key"],
                         configs=cfgs,
-                        extra_cov=lambda r: {"spec_equivalent_flips_skipped": r.stat("spec_equivalent_skipped")})
+                        extra_cov=lambda r: {"spec_equivalent_flips_skipped": r.stat("spec_equivalent_skipped"),
+                                             "big_ad_items_skipped_unavailable": r.stat("big_ad_skipped")})
